@@ -111,9 +111,10 @@ def judge(case, ctx):
         if be == "-python-native" and "pn.namespace_class" in avoid and case["raw"].get("ns"):
             opts["no_namespace"] = True
             avoided.append("avoided.pn.namespace_class")
-        lib = hgen.build(case["raw"], opts)
-        if avoid and (hgen.build(case["raw"], dict(opts, avoid=())).features - lib.features):
-            avoided += ["avoided." + t for t in sorted(hgen.build(case["raw"], dict(opts, avoid=())).features - lib.features)]
+        raw_ = hgen.with_arith_family(case["raw"]) if "-true-names" not in flags else case["raw"]
+        lib = hgen.build(raw_, opts)
+        if avoid and (hgen.build(raw_, dict(opts, avoid=())).features - lib.features):
+            avoided += ["avoided." + t for t in sorted(hgen.build(raw_, dict(opts, avoid=())).features - lib.features)]
     names = collision_names(case["collide"]) if "-true-names" not in flags or case["collide"] <= 1 else collision_names(case["collide"])
     extra_h = extra_i = ""
     if names:
